@@ -670,6 +670,78 @@ func startCloseAfterSend(smtu int) *run {
 	return r
 }
 
+// startAcceptedCloseAfterSend (`new tcpa <smtu> 0`): the same for a face the REAL TCPListener accepted (the
+// harness dials the listener; the listener builds the transport and the link service, applies whatever socket
+// options it applies to accepted connections and registers the face): the blocks go through the sendFrame of
+// that face's transport, the face is closed from the forwarder's side (faces/destroy, expiry, shutdown) right
+// after the last one, the peer reads slowly through a small receive window.
+func startAcceptedCloseAfterSend(smtu int) *run {
+	r := &run{kind: "tcpa", done: make(chan string, 1), offered: -1, isSock: true}
+	ndnlog.SetLevel(ndnlog.FatalLevel)
+	cfg := core.DefaultConfig()
+	core.LoadConfig(cfg, "/")
+	fwface.Configure()
+	dispatch.InitializeFWThreads([]dispatch.FWThread{&lisThread{r}})
+	fw.Threads = make([]*fw.Thread, 1)
+	before := map[uint64]bool{}
+	for _, f := range fwface.FaceTable.GetAll() {
+		before[f.FaceID()] = true
+	}
+	port := freeTCPPort()
+	if port == 0 {
+		return nil
+	}
+	l, err := fwface.MakeTCPListener(defn.MakeTCPFaceURI(4, "127.0.0.1", port))
+	if err != nil {
+		return nil
+	}
+	go l.Run()
+	var c net.Conn
+	for i := 0; i < 400; i++ {
+		if c, err = net.Dial("tcp4", fmt.Sprintf("127.0.0.1:%d", port)); err == nil {
+			break
+		}
+		time.Sleep(5 * time.Millisecond)
+	}
+	if err != nil {
+		l.Close()
+		return nil
+	}
+	c.(*net.TCPConn).SetReadBuffer(4096)
+	// the face the listener made for this connection
+	var snd func([]byte)
+	var cls func()
+	for i := 0; i < 400 && snd == nil; i++ {
+		for _, f := range fwface.FaceTable.GetAll() {
+			if !before[f.FaceID()] && f.RemoteURI().Scheme() == "tcp4" && f.RemoteURI().Port() == uint16(c.LocalAddr().(*net.TCPAddr).Port) {
+				if s2, c2, ok := fwface.VerifFaceSendAndClose(f.FaceID()); ok {
+					f.SetMTU(smtu)
+					snd, cls = s2, c2
+				}
+			}
+		}
+		if snd == nil {
+			time.Sleep(5 * time.Millisecond)
+		}
+	}
+	if snd == nil {
+		c.Close()
+		l.Close()
+		return nil
+	}
+	r.send = snd
+	r.closeS = func() { cls(); l.Close() }
+	bp := &backPressure{q: make(chan []byte, 1<<16), done: make(chan struct{}), srv: c, slow: true}
+	go func() {
+		defer close(bp.done)
+		for b := range bp.q {
+			snd(b)
+		}
+	}()
+	r.bp = bp
+	return r
+}
+
 func (r *run) finishBackPressure() string {
 	bp := r.bp
 	close(bp.q)
@@ -1079,6 +1151,11 @@ func exec(op string) string {
 				return "bad-op"
 			}
 			cur = startCloseAfterSend(common.Atoi(f[2]))
+		} else if f[1] == "tcpa" {
+			if len(f) != 4 {
+				return "bad-op"
+			}
+			cur = startAcceptedCloseAfterSend(common.Atoi(f[2]))
 		} else if f[1] == "tcpb" {
 			if len(f) != 4 {
 				return "bad-op"
@@ -1394,6 +1471,7 @@ func gen(g *common.Gen) {
 			kind = "app"
 		}
 		if i%8 == 2 && (i/8)%16 == 11 {
+			acceptedFace = (i/128)%2 == 1 // alternately an outgoing face and a face the real listener accepted
 			genBackPressure(g, r, 0)
 			continue
 		}
@@ -1686,8 +1764,14 @@ func genSendLeg(g *common.Gen, r *common.Rand, kind string) {
 
 // genBackPressure: many mostly large blocks through a real TCP transport whose peer does not read
 // for <stall> ms (the queue fills after a few blocks, the rest waits in Write) and then reads all.
+var acceptedFace bool
+
 func genBackPressure(g *common.Gen, r *common.Rand, stall int) {
-	if stall == 0 {
+	if stall == 0 && acceptedFace {
+		// the same with a face the real TCP listener accepted
+		g.Op("new tcpa %d 0", maxPkt)
+		g.Stat("hist-tcpa")
+	} else if stall == 0 {
 		// the sending face is closed right after its last block while the peer still lags behind
 		g.Op("new tcpo %d 0", maxPkt)
 		g.Stat("hist-tcpo")
